@@ -52,6 +52,10 @@ CONFIGS = ["plain", "screening", "adaptive", "tdep", "callable_currents", "hole_
 KERNELS = ["A_induced", "sq2d", "sq3d", "eu2d", "eu3d", "bs1d", "bs2dz", "bs2dv"]
 
 
+def cost(case):
+    return {"sweep": 20, "kernel": 3, "compiled": 1}[case["fam"]]
+
+
 def cases(tier, seed):
     out = []
     for c in CONFIGS:
